@@ -82,10 +82,13 @@ func (i ios) WriteAt(b []byte, off int64) (int, error) {
 	}
 	return len(b), nil
 }
-func (i ios) ReadAt(b []byte, off int64) (int, error) { i.n.calls = append(i.n.calls, "READ"); return len(b), nil }
-func (i ios) Sync() (int, error)                       { return 0, nil }
-func (i ios) Unmap(int64, int64) (int, error)          { return 0, nil }
-func (i ios) Close() error                             { return nil }
+func (i ios) ReadAt(b []byte, off int64) (int, error) {
+	i.n.calls = append(i.n.calls, "READ")
+	return len(b), nil
+}
+func (i ios) Sync() (int, error)              { return 0, nil }
+func (i ios) Unmap(int64, int64) (int, error) { return 0, nil }
+func (i ios) Close() error                    { return nil }
 
 type rt struct{ nodes map[string]*node }
 
@@ -116,13 +119,16 @@ func (f *factory) Create(address string) (types.Backend, error) {
 	}
 	return r, nil
 }
-func (f *factory) SignalToAdd(a, act string) error { f.signals = append(f.signals, a+":"+act); return nil }
-func (f *factory) VerifyReplicaAlive(string) bool   { return true }
+func (f *factory) SignalToAdd(a, act string) error {
+	f.signals = append(f.signals, a+":"+act)
+	return nil
+}
+func (f *factory) VerifyReplicaAlive(string) bool { return true }
 
 type fe struct{ up bool }
 
 func (f *fe) Startup(string, string, string, int64, int64, types.IOs) error { f.up = true; return nil }
-func (f *fe) Shutdown() error                                                { f.up = false; return nil }
+func (f *fe) Shutdown() error                                               { f.up = false; return nil }
 func (f *fe) State() types.State {
 	if f.up {
 		return types.StateUp
